@@ -32,6 +32,7 @@ type c12Route struct {
 	Pattern string
 	Mk      func(tok string) (host, path string)
 	TSR     bool // reached through an ignored trailing slash
+	MkVar   func(tok string, v int) (host, path string) // generated routes: bit i of v gives parameter i a value that is also a static text of the pool
 }
 
 func otherTokens(s, own string) []string {
@@ -97,12 +98,12 @@ func runC12(src sim.Source, o Opts) *Result {
 		return res
 	}
 	routes := []c12Route{
-		{"GET", "/u/{a}", func(t string) (string, string) { return "sim.invalid", "/u/" + t }, false},
-		{"GET", "/v/{a}/f/*{b}", func(t string) (string, string) { return "sim.invalid", "/v/" + t + "/f/x/" + t }, false},
-		{"GET", "/w/{a}/", func(t string) (string, string) { return "sim.invalid", "/w/" + t }, true},
-		{"GET", "/x/{a}/g{b}", func(t string) (string, string) { return "sim.invalid", "/x/" + t + "/g" + t + "/" }, true},
-		{"GET", "h{h}.sim/y/{a}", func(t string) (string, string) { return "h" + t + ".sim", "/y/" + t }, false},
-		{"POST", "/u/{a}", func(t string) (string, string) { return "sim.invalid", "/u/" + t }, false},
+		{"GET", "/u/{a}", func(t string) (string, string) { return "sim.invalid", "/u/" + t }, false, nil},
+		{"GET", "/v/{a}/f/*{b}", func(t string) (string, string) { return "sim.invalid", "/v/" + t + "/f/x/" + t }, false, nil},
+		{"GET", "/w/{a}/", func(t string) (string, string) { return "sim.invalid", "/w/" + t }, true, nil},
+		{"GET", "/x/{a}/g{b}", func(t string) (string, string) { return "sim.invalid", "/x/" + t + "/g" + t + "/" }, true, nil},
+		{"GET", "h{h}.sim/y/{a}", func(t string) (string, string) { return "h" + t + ".sim", "/y/" + t }, false, nil},
+		{"POST", "/u/{a}", func(t string) (string, string) { return "sim.invalid", "/u/" + t }, false, nil},
 	}
 	set := model.NewSet()
 	for i, r := range routes {
@@ -117,18 +118,67 @@ func runC12(src sim.Source, o Opts) *Result {
 		}
 		set.Insert(world.ModelRoute(cfg, r.Method, p, i+1, world.RouteOpt{}))
 	}
-	shapes := []string{"seq", "lookup-clone", "direct", "direct", "tsr", "redirect-or-ignore", "notfound", "nomethod", "options", "lookup", "lookup-noclose", "clonewith", "clone", "clone"}
+	// generated routes next to the fixed ones (hostname-heavy, wildcard-heavy): the shape of the tree decides which
+	// lookups backtrack, record parameters and drop them again - on the handler-visible context during Allow scans
+	if ngen := src.Intn("genroutes", 6); ngen > 0 {
+		pool := world.GenPool(src, world.PoolCfg{Size: ngen, MaxSegs: 1 + src.Intn("maxsegs", 4), Hosts: true, HostHeavy: true, WildHeavy: true, TSlash: 2})
+		for _, pat := range pool {
+			method := sim.Pick(src, "gmethod", []string{"GET", "GET", "POST"})
+			tag := len(routes) + 1
+			mr := world.ModelRoute(cfg, method, pat, tag, world.RouteOpt{})
+			if len(set.Conflicts(method, pat)) > 0 || set.Insert(mr) != nil {
+				continue
+			}
+			if _, err := w.R.Handle(method, pat.Raw, world.Handler(tag), world.FoxOpts(tag, world.RouteOpt{})...); err != nil {
+				res.Trouble = fmt.Sprintf("generated route %s %s: %v", method, pat.Raw, err)
+				return res
+			}
+			pat := pat
+			mk := func(t string, v int) (string, string) {
+				var ps []model.Param
+				n := 0
+				for _, tk := range pat.Toks {
+					if tk.Kind == model.TStatic {
+						continue
+					}
+					val := t
+					if v&(1<<n) != 0 {
+						val = []string{"b", "a", "ab", "c"}[(v+n)%4]
+					} else if tk.Kind == model.TCatch {
+						val = t + "/" + t
+					}
+					n++
+					ps = append(ps, model.Param{Key: tk.Name, Value: val})
+				}
+				full, _ := pat.Substitute(ps)
+				i := strings.IndexByte(full, '/')
+				if i == 0 {
+					return "sim.invalid", full
+				}
+				return full[:i], full[i:]
+			}
+			routes = append(routes, c12Route{Method: method, Pattern: pat.Raw, Mk: func(t string) (string, string) { return mk(t, 0) }, MkVar: mk})
+			res.inc("generated_routes")
+		}
+	}
+	var routeDesc []string
+	for _, r := range routes {
+		routeDesc = append(routeDesc, r.Method+" "+r.Pattern)
+	}
+	res.Case["routes"] = routeDesc
+	shapes := []string{"seq", "lookup-clone", "nomethod", "options", "direct", "direct", "tsr", "redirect-or-ignore", "notfound", "nomethod", "options", "lookup", "lookup-noclose", "clonewith", "clone", "clone"}
 	type reqPlan struct {
-		Shape  string
-		Route  int
-		Yields int
+		Shape   string
+		Route   int
+		Yields  int
 		Rerange bool // range the task's kept iterator sequences again while this request is in flight
+		Var     int  // generated routes: which parameters take a value that is also a static text (drives backtracking)
 	}
 	nclients := 1 + src.Intn("clients", 3)
 	plans := make([][]reqPlan, nclients)
 	for c := range plans {
 		for i, n := 0, 2+src.Intn("nreq", 6); i < n; i++ {
-			plans[c] = append(plans[c], reqPlan{Shape: sim.Pick(src, "shape", shapes), Route: src.Intn("route", len(routes)), Yields: src.Intn("yields", 3), Rerange: src.Intn("rerange", 3) == 0})
+			plans[c] = append(plans[c], reqPlan{Shape: sim.Pick(src, "shape", shapes), Route: src.Intn("route", len(routes)), Yields: src.Intn("yields", 3), Rerange: src.Intn("rerange", 3) == 0, Var: sim.Pick(src, "pvar", []int{0, 0, 1, 2, 3, 5, 6, 7})})
 		}
 	}
 	withWriter := src.Intn("writer", 2) == 1
@@ -180,6 +230,9 @@ func runC12(src sim.Source, o Opts) *Result {
 				tok := fmt.Sprintf("t%d%02dx", ci+1, qi)
 				r := routes[pl.Route]
 				host, path := r.Mk(tok)
+				if r.MkVar != nil {
+					host, path = r.MkVar(tok, pl.Var)
+				}
 				method := r.Method
 				if pl.Shape == "seq" {
 					it := w.R.Iter()
@@ -215,6 +268,9 @@ func runC12(src sim.Source, o Opts) *Result {
 				}
 				sv := set.Serve(w.ModelCfg(), method, host, path, path, model.MatchOpts{})
 				wantKind = sv.Kind
+				if alt := set.Serve(w.ModelCfg(), method, host, path, path, model.MatchOpts{AllowLeadingSlashCapture: true}); alt.Kind != sv.Kind || fmtMatch(alt.Match) != fmtMatch(sv.Match) {
+					continue // documented ambiguity (capture starting with '/'): not this property's business
+				}
 				status := 200 + (ci*17+qi)%50
 				bodyLen := (ci + qi) % 7
 				observe := func(c fox.Context, when string) {
@@ -450,6 +506,6 @@ func runC12(src sim.Source, o Opts) *Result {
 	}
 	res.Checks = total
 	res.Nontrivial = total > 0 && (s.Switches > 0 || nclients == 1)
-	res.CaseKey = sim.Mix(s.SchedHash, hashStrings(pd...))
+	res.CaseKey = sim.Mix(s.SchedHash, hashStrings(append(pd, routeDesc...)...))
 	return res
 }
